@@ -222,6 +222,11 @@ func judgeReplay(rf replayFile, status string) string {
 		if status == "panic" {
 			return "confirmed"
 		}
+		// forming a pointer outside its object does not trap natively; the input is confirmed
+		// when the native run shows the consequence (an assertion of the harness fails)
+		if strings.HasPrefix(rf.Msg, "invalid unsafe pointer") && strings.HasPrefix(status, "assert-failed:") {
+			return "confirmed"
+		}
 	}
 	return "not-reproduced(" + status + ")"
 }
